@@ -49,9 +49,9 @@ POOLSIM_ESSENTIAL = {
     "C05": ["C05.hostile-case", "C05.malformed-handled"],
     "C06": ["C06.lock-free-after-op", "C06.hard-state", "C09.rr-wait", "C08.place-saturated", "C06.waiter-parked"],
     "C07": ["C07.rule", "C07.rule-refresh", "C07.swap", "C07.window-boundary", "C07.window-doubled",
-            "C07.started-before-last-response", "C07.disabled", "C07.extreme-window"],
+            "C07.started-before-last-response", "C07.disabled", "C07.extreme-window", "C07.saturated-window"],
     "C08": ["C08.fallback", "C08.place", "C08.sticky", "C08.place-saturated"],
-    "C09": ["C09.successor", "C09.rr-wait", "C09.waiter-released", "C09.ctx-end"],
+    "C09": ["C09.successor", "C09.rr-wait", "C09.waiter-released", "C09.ctx-end", "C09.cursor-near-2^31"],
     "C20": ["C20.addr", "C20.replacement-addr", "C20.new-addr", "C20.resolver-error"],
 }
 
